@@ -94,7 +94,7 @@ def snapshots(commands, global_decls=False):
 DEFAULTS = dict(ncmds=(8, 26), p_push=0.12, p_pop=0.10, p_check=0.22, named=0.0, nested_named=0.0, defines=0.0,
                 queries=(), q_prob=0.7, unsat_bias=0.3, all_named=False, max_live=14, max_depth=3, big=0.15, max_push=4,
                 reassert=0.12, value_terms=True, final_check=True, clausal=0.35, bool_args=True, allow_let=True, reenter=0.25, horn=0.3, hard3=0.25,
-                uf_heavy=0.4, dl_dense=0.5, la_dense=0.3, ax_dense=0.5)
+                uf_heavy=0.4, dl_dense=0.5, la_dense=0.3, ax_dense=0.5, uf_dense=0.4)
 
 
 class HistGen:
@@ -116,8 +116,12 @@ class HistGen:
         # reasons about (array = store, index (dis)equality, select (dis)equality)
         self.ax_dense = gen.PROFILES[prof]['arrays'] and self.o['clausal'] > 0 and rng.random() < self.o['ax_dense']
         pp0 = gen.PROFILES[prof]
+        self.uf_dense = False
         self.la_dense = bool(pp0['nums']) and not pp0['dl'] and self.o['clausal'] > 0 and rng.random() < self.o['la_dense']
         self.sig = gen.make_signature(rng, prof, self.o['bool_args'], nconsts=(5, 8) if self.horn else ((4, 6) if self.dl_dense else ((3, 4) if self.la_dense else (2, 4))))
+        # "uf-dense" mode: decided after the signature is known (needs a function U x .. x U -> U)
+        if pp0['uf'] and not pp0['arrays'] and self.o['clausal'] > 0 and any(f[2] in self.sig.sorts and all(a == f[2] for a in f[1]) for f in self.sig.funs):
+            self.uf_dense = rng.random() < self.o['uf_dense'] and not (self.la_dense or self.dl_dense)
         self.tg = gen.TermGen(rng, prof, self.sig, big_consts=self.o['big'], max_depth=self.o['max_depth'])
         self.tg.allow_let = self.o['allow_let']
         pp = gen.PROFILES[prof]
@@ -133,7 +137,7 @@ class HistGen:
         self.pending = []
         self.def_id = 0
         self.pool = None
-        if self.horn or self.dl_dense or self.la_dense or self.ax_dense or rng.random() < self.o['clausal']:
+        if self.horn or self.dl_dense or self.la_dense or self.ax_dense or self.uf_dense or rng.random() < self.o['clausal']:
             # "hard" mode: random 2-3 literal clauses over a fixed pool of atoms, so that the answer needs search
             # "hard3": 3-literal clauses only, at a clause / atom ratio around the random 3-SAT threshold, so that the answer
             # needs tens of conflicts instead of being decided by propagation
@@ -155,6 +159,8 @@ class HistGen:
                         a = self.tg.la_atom(rng.choice(gen.PROFILES[prof]['nums']))
                     if self.ax_dense and rng.random() < 0.85:
                         a = self.tg.ax_atom()
+                    if self.uf_dense and rng.random() < 0.85:
+                        a = self.tg.uf_atom()
                     txt = pr(a, False)
                     # no syntactically trivial atoms ((= x x), (distinct x x), (< x x)) and no duplicates in the pool
                     trivial = a.op == 'app' and len(a.args) >= 2 and len({pr(x, False) for x in a.args}) < len(a.args)
@@ -209,6 +215,11 @@ class HistGen:
 
     def emit_assert(self, t):
         r = self.rng
+        # a formula that is already on the stack is usually not asserted a second time (random clauses over a small pool repeat
+        # often; co-live duplicates are the known term-identity finding and would file everything else in the run under it)
+        txt = pr(gen.strip_names(t), False)
+        if any(pr(x, False) == txt for lv in self.levels for x in lv) and r.random() < 0.9:
+            return
         if self.o['nested_named'] > 0:
             t = self.add_nested_names(t, [2])
         named = self.o['all_named'] or r.random() < self.o['named']
@@ -222,7 +233,7 @@ class HistGen:
         syms = set()
         gen.symbols_of(t, syms)
         self.cmds.append({'k': 'assert', 'text': '(assert %s)' % pr(t, True), 'ref': pr(t, False), 'names': names, 'syms': sorted(syms)})
-        base = t.args[0] if t.op == 'named' else t
+        base = gen.strip_names(t)
         self.levels[-1].append(base)
 
     def unsat_gadget(self):
